@@ -418,33 +418,51 @@ def chandrupatla(ctx, rep):
                       construct='point updates')
     else:
         rep.ok('D2.contain', fn, lp, 'a, b, c, xm are only ever assigned bracket points', construct='point updates')
-    # D4 scalar vs vector formula
+    # D4 scalar vs vector formula.  Roles of the locals (not their names): SHAPE is assigned from np.shape(...); T is the
+    # interpolation fraction multiplying (b - a) in the clipped evaluation point; IQI is the mask that selects interpolation.
+    SHAPE = T = IQI = None
+    for s in walk_no_nested(fn.node):
+        if isinstance(s, ast.Assign) and len(s.targets) == 1 and isinstance(s.targets[0], ast.Name) and isinstance(s.value, ast.Call) \
+                and (prog.resolve(fn.module, s.value.func) == 'numpy.shape') and SHAPE is None:
+            SHAPE = s.targets[0].id
+    for c in ast.walk(lp):
+        if isinstance(c, ast.Call) and call_name(c) == 'clip' and c.args:
+            for x in ast.walk(c.args[0]):
+                if isinstance(x, ast.BinOp) and isinstance(x.op, ast.Mult):
+                    for side, other in ((x.left, x.right), (x.right, x.left)):
+                        if isinstance(side, ast.Name) and isinstance(other, ast.BinOp) and isinstance(other.op, ast.Sub) and T is None:
+                            T = side.id
+    if T is not None:
+        for s in ast.walk(lp):
+            if isinstance(s, ast.Assign) and isinstance(s.targets[0], ast.Subscript) and isinstance(s.targets[0].value, ast.Name) and s.targets[0].value.id == T \
+                    and isinstance(s.targets[0].slice, ast.Name):
+                IQI = s.targets[0].slice.id
     scalar_t = vector_t = None
     for s in ast.walk(lp):
         if isinstance(s, ast.If) and isinstance(s.test, ast.UnaryOp) and isinstance(s.test.op, ast.Not) \
-                and isinstance(s.test.operand, ast.Name) and s.test.operand.id == 'shape':
+                and isinstance(s.test.operand, ast.Name) and s.test.operand.id == SHAPE:
             for x in ast.walk(ast.Module(body=s.body, type_ignores=[])):
                 if isinstance(x, ast.If) and isinstance(x.test, ast.Name):
                     for y in x.body:
-                        if isinstance(y, ast.Assign) and isinstance(y.targets[0], ast.Name) and y.targets[0].id == 't':
+                        if isinstance(y, ast.Assign) and isinstance(y.targets[0], ast.Name) and y.targets[0].id == T:
                             scalar_t = (y, x.body)
             for y in s.orelse:
                 if isinstance(y, ast.Assign) and isinstance(y.targets[0], ast.Subscript) and isinstance(y.targets[0].value, ast.Name) \
-                        and y.targets[0].value.id == 't':
+                        and y.targets[0].value.id == T:
                     vector_t = (y, s.orelse)
     # every path through the step selection assigns t afresh (bisection 0.5 unless interpolation is chosen)
     from ..idioms import enum_paths
     for s in ast.walk(lp):
         if isinstance(s, ast.If) and isinstance(s.test, ast.UnaryOp) and isinstance(s.test.op, ast.Not) \
-                and isinstance(s.test.operand, ast.Name) and s.test.operand.id == 'shape':
+                and isinstance(s.test.operand, ast.Name) and s.test.operand.id == SHAPE:
             for which, body in (('scalar', s.body), ('vector', s.orelse)):
                 paths = enum_paths(body)
                 good = bool(paths)
                 halves = True
                 for p in paths:
-                    assigns = [x for x in p.stmts if isinstance(x, ast.Assign) and isinstance(x.targets[0], ast.Name) and x.targets[0].id == 't']
+                    assigns = [x for x in p.stmts if isinstance(x, ast.Assign) and isinstance(x.targets[0], ast.Name) and x.targets[0].id == T]
                     good = good and bool(assigns)
-                    interp = any(pol and isinstance(t_, ast.Name) and t_.id == 'iqi' for t_, pol in p.conds)
+                    interp = any(pol and isinstance(t_, ast.Name) and t_.id == IQI for t_, pol in p.conds)
                     if assigns and not interp:
                         v = assigns[0].value
                         halves = halves and (const_value(v) == 0.5 or (isinstance(v, ast.Call) and call_name(v) == 'full' and len(v.args) == 2 and const_value(v.args[1]) == 0.5))
@@ -461,7 +479,7 @@ def chandrupatla(ctx, rep):
         for y in scalar_t[1]:
             if isinstance(y, ast.Assign) and isinstance(y.targets[0], ast.Name):
                 nf.env[y.targets[0].id] = nf.nf(y.value)
-        a = nf.env.get('t')
+        a = nf.env.get(T)
         nf2 = NF(prog, fn)
         nf2.env = {}
         mask = vector_t[0].targets[0].slice
